@@ -3,6 +3,7 @@
   Property theorems about the model `XgiModel/C10/Convert.lean` (the functions `Drivers/C10.lean` runs).
 -/
 import XgiModel.C10.Lemmas
+import XgiModel.C10.LemmasDfSC
 
 namespace Xgi.C10
 
@@ -814,6 +815,29 @@ theorem hif_rt_sc (a : ANet) (hw : AWF a) (hc : a.cls = .sc) (hsc : SCWF a.net) 
     · unfold Net.edgeIds; rw [hk]; exact r2 e
     · unfold Inc; rw [hk]; exact r3 n e
 
+/-! ### two-column dataframe read back into a simplicial complex -/
+
+/-- two-column dataframe read back into a simplicial complex (`from_bipartite_pandas_dataframe(df,
+    create_using=SimplicialComplex)`, `SimplicialComplex(df)`; with the proposed fix that hands the edge labels of the
+    dataframe to `add_simplices_from`).  The source is a simplicial complex as xgi stores one (`SCWF`).  The result is
+    a simplicial complex; **every source simplex keeps its ID and its member set**; the result is closed under faces;
+    every simplex of the result lies inside a source simplex; and when the source is closed under faces (`SCClosed`,
+    which `add_simplex` maintains) nothing else is created: the edge-ID set and the labelled incidences of the
+    result are exactly the source's -/
+theorem dataframe_rt_sc (h : Net) (hw : h.WF) (hsc : SCWF h) :
+    (fromDataframeSC (toDataframe h)).cls = .sc ∧
+    (∀ p ∈ h.edges, ∃ q ∈ (fromDataframeSC (toDataframe h)).net.edges, q.1 = p.1 ∧ ∀ x, x ∈ q.2 ↔ x ∈ p.2) ∧
+    (∀ q ∈ (fromDataframeSC (toDataframe h)).net.edges, ∀ f : List PyId, f.Sublist q.2 → 2 ≤ f.length →
+      hasSimplex (fromDataframeSC (toDataframe h)).net.edges f = true) ∧
+    (∀ q ∈ (fromDataframeSC (toDataframe h)).net.edges, ∃ p ∈ h.edges, ∀ x ∈ q.2, x ∈ p.2) ∧
+    (SCClosed h → (∀ e, e ∈ (fromDataframeSC (toDataframe h)).net.edgeIds ↔ e ∈ h.edgeIds) ∧
+      (∀ n e, Inc (fromDataframeSC (toDataframe h)).net n e ↔ Inc h n e)) := by
+  obtain ⟨d1, d2⟩ := dataframe_rt h hw
+  have hwb := awf_bare _ d2
+  obtain ⟨t1, _, _, _, _, t6, _⟩ := toSimplicialComplex_spec _ hwb
+  obtain ⟨s1, s2, s3⟩ := sc_transport h _ hw hwb hsc (edgeIds_dataframe_rt h hw hsc.ne) d1
+  exact ⟨t1, s1, t6, s2, s3⟩
+
 /-! ### non-vacuity: concrete networks satisfy the hypotheses and the functions evaluate as expected -/
 
 /-- nodes 3, 1, 2, 9 (9 isolated); edges x = {1, 2}, 0 = {3}, 5 = {} (empty), 2 = {1, 2} (multi-edge) -/
@@ -1010,5 +1034,16 @@ example : exDiG.verts.Perm exDiG'.verts := (List.reverse_perm _).symm
 example : ∀ u v, (u, v) ∈ exDiG.edges ↔ (u, v) ∈ exDiG'.edges := fun u v => by simp [exDiG']
 example : (fromBipartiteGraphDi exDiG').toOption.map (·.edges) =
     some [(.int 5, [.int 0], [.int 2, .int 0]), (.int 4, [.int 1, .int 0], [.int 2])] := by decide
+
+/-- a stored simplicial complex: the triangle `t` with its three edges -/
+def exSCNet : Net :=
+  { nodes := [.int 1, .int 2, .int 3],
+    edges := [(.str "t", [.int 1, .int 2, .int 3]), (.int 0, [.int 1, .int 2]), (.int 1, [.int 1, .int 3]), (.int 2, [.int 2, .int 3])] }
+example : exSCNet.WF := by unfold Net.WF exSCNet; decide
+example : SCWF exSCNet := ⟨by unfold exSCNet; decide, by unfold exSCNet; decide⟩
+example : SCClosed exSCNet := by unfold SCClosed exSCNet; decide
+example : toDataframe exSCNet = [(.int 1, .str "t"), (.int 1, .int 0), (.int 1, .int 1), (.int 2, .str "t"), (.int 2, .int 0),
+    (.int 2, .int 2), (.int 3, .str "t"), (.int 3, .int 1), (.int 3, .int 2)] := by decide
+example : (fromDataframeSC (toDataframe exSCNet)).net.edges = exSCNet.edges := by decide
 
 end Xgi.C10
